@@ -23,9 +23,10 @@ Proof. unfold buflen. lia. Qed.
 Lemma irfft_length_is_buflen n k : 2 * ((buflen n k / 2 + 1) - 1) = buflen n k.
 Proof. unfold buflen. lia. Qed.
 
-Lemma window_in_buffer n k p :
-  1 <= n -> 1 <= k -> 0 <= p < n ->
-  0 <= p + win_start k < buflen n k /\ win_stop n k <= buflen n k /\ win_stop n k - win_start k = n.
+(* the window [w, n + w) for any start inside the kernel, 0 <= w < k (in particular w = c_k) *)
+Lemma window_in_buffer n k w p :
+  1 <= n -> 0 <= w < k -> 0 <= p < n ->
+  0 <= p + win_start w < buflen n k /\ win_stop n w <= buflen n k /\ win_stop n w - win_start w = n.
 Proof. intros Hn Hk Hp. unfold win_start, win_stop, buflen. lia. Qed.
 
 (* ---------------- no wrap-around ---------------- *)
@@ -115,21 +116,21 @@ Proof.
 Qed.
 
 (* ---------------- centring ---------------- *)
-Lemma centred_iff n mM : offset n mM = 0 <-> kcentre n mM = klen mM / 2.
-Proof. unfold offset, win_start. lia. Qed.
+Lemma half_gap_zero_iff n mM : half_gap n mM = 0 <-> kcentre n mM = klen mM / 2.
+Proof. unfold half_gap. lia. Qed.
 
 (* the support of a kernel that depends on |offset from the centre| only:
    symmetric, and downward closed in |d| *)
 Definition sym_mono (S : Z -> bool) : Prop :=
   S 0 = true /\ forall d d', Z.abs d' <= Z.abs d -> S d = true -> S d' = true.
 
-Lemma sym_bbox_offset n S m M :
+Lemma sym_bbox_half_gap n S m M :
   1 <= n -> sym_mono S ->
   is_bbox n (fun i => S (i - centre n)) m M -> m <= centre n <= M ->
-  offset n (m, M) = if Z.even n && S (centre n + 1) then -1 else 0.
+  half_gap n (m, M) = if Z.even n && S (centre n + 1) then -1 else 0.
 Proof.
   intros Hn [S0 Smono] (H1 & H2 & Pm & PM & Lo & Hi) Hc.
-  unfold offset, kcentre, klen, win_start. cbn [fst snd].
+  unfold half_gap, kcentre, klen. cbn [fst snd].
   set (c := centre n) in *.
   assert (Hcn : (Z.even n = true /\ n = 2 * c + 2) \/ (Z.even n = false /\ n = 2 * c + 1)).
   { unfold c, centre. destruct (Z.even n) eqn:E; [left|right]; split; try reflexivity.
@@ -168,9 +169,9 @@ Proof.
     lia.
 Qed.
 
-Lemma sym_offset n S :
+Lemma sym_half_gap n S :
   1 <= n -> sym_mono S ->
-  offset n (crop_bounds n (fun i => S (i - centre n))) = if Z.even n && S (centre n + 1) then -1 else 0.
+  half_gap n (crop_bounds n (fun i => S (i - centre n))) = if Z.even n && S (centre n + 1) then -1 else 0.
 Proof.
   intros Hn HS.
   assert (Hc : 0 <= centre n < n) by (unfold centre; lia).
@@ -178,14 +179,14 @@ Proof.
   cbn beta in HB. rewrite Z.sub_diag in HB. specialize (HB (proj1 HS)).
   destruct HB as [BB Hin].
   destruct (crop_bounds n (fun i => S (i - centre n))) as [m M] eqn:E. cbn [fst snd] in *.
-  apply sym_bbox_offset; assumption.
+  apply sym_bbox_half_gap; assumption.
 Qed.
 
 Lemma sym_centred_iff n S :
   1 <= n -> sym_mono S ->
-  (offset n (crop_bounds n (fun i => S (i - centre n))) = 0 <-> (Z.odd n = true \/ S (centre n + 1) = false)).
+  (half_gap n (crop_bounds n (fun i => S (i - centre n))) = 0 <-> (Z.odd n = true \/ S (centre n + 1) = false)).
 Proof.
-  intros Hn HS. rewrite (sym_offset n S Hn HS). rewrite <- Z.negb_even.
+  intros Hn HS. rewrite (sym_half_gap n S Hn HS). rewrite <- Z.negb_even.
   destruct (Z.even n); destruct (S (centre n + 1)); cbn; intuition (try discriminate; try lia).
 Qed.
 
